@@ -578,6 +578,21 @@ pub fn run(run: &Run) {
         reductions(run, &alt, &y, "alternating-1e8");
         let mix: Vec<f64> = (0..n).map(|i| if i % 5 == 4 { 1e15 } else { 0.1 * (i as f64 + 1.0) }).collect();
         reductions(run, &mix, &x, "mixed-magnitude");
+        // degenerate and extreme data: all zero (either sign), a single non-zero entry, magnitudes whose
+        // squares underflow or overflow (the sums themselves stay finite)
+        let zeros = vec![0.0; n];
+        reductions(run, &zeros, &x, "all-zero");
+        let nz: Vec<f64> = (0..n).map(|i| if i % 2 == 0 { -0.0 } else { 0.0 }).collect();
+        reductions(run, &nz, &nz, "signed-zeros");
+        if n > 0 {
+            let mut one = vec![0.0; n];
+            one[n - 1] = -3.0;
+            reductions(run, &one, &one, "single-non-zero");
+        }
+        let small: Vec<f64> = (0..n).map(|i| (1.0 + (i % 4) as f64) * 1e-120).collect();
+        reductions(run, &small, &small, "tiny-magnitude");
+        let big: Vec<f64> = (0..n).map(|i| (1.0 + (i % 4) as f64) * 1e120 * if i % 3 == 0 { -1.0 } else { 1.0 }).collect();
+        reductions(run, &big, &small, "huge-magnitude");
         // each single position distinguished (a dropped or double-counted index changes the sum)
         for i in 0..n.min(41) {
             let mut e = vec![1.0; n];
